@@ -45,7 +45,7 @@ claim("C09",
 claim("C10",
       "Three solver-backed obligations: (a) the real shift arithmetic (product/union/reverse shifts, Quotient's parent shift) is "
       "run on z3 integer terms and the algebraic read-bound claims are discharged as validity queries for unbounded minimum sizes, "
-      "arity<=4 (cross-checked on z3 4.8.12); (b) CrossHair closes all paths of the real utils.compositions against its contract; "
+      "arity<=4, also with the same class object in several positions (cross-checked on z3 4.8.12); (b) CrossHair closes all paths of the real utils.compositions against its contract; "
       "(c) with minimum sizes as solver variables every request the real rule forms make to instrumented sub-term providers is "
       "checked against n - declared shift.",
       "Trusted: CPython, z3 (two versions), CrossHair; (a) treats compositions' contract as proved by (b); stub classes/strategies.",
@@ -64,7 +64,8 @@ claim("C07",
       "forward/backward maps of plain, equivalence, reverse-of-equivalence and path rules) on stub classes: the number of objects "
       "of every (child, size, statistic value) is a solver variable; on every path the generated multiset equals the reference "
       "multiset (each object once, right statistic), its size equals the count the same rule reports, and object->parts->object "
-      "round-trips with parts in the right child. Verification rules are asked sizes in every order.",
+      "round-trips with parts in the right child. Verification rules are asked sizes in every order. Fault schedule: the number of the "
+      "provider call that raises is a solver variable; the same rule asked again must still generate exactly the reference.",
       "Trusted: CPython, CrossHair, z3, reference object semantics of a genuine union/product; stub classes/strategies. Whole "
       "specifications (objects of real universes) are exercised under C01's end-to-end group.",
       "CrossHair symbolic execution (pattern T: symbolic object-list lengths) + z3", "DESIGN.md 2/C07")
@@ -119,7 +120,8 @@ claim("C17",
 claim("C18",
       "Bounded symbolic execution: (a) strategy kind and the four setting bits are solver variables - each of the 160 combinations is "
       "round-tripped through JSON and compared (equality must depend on kind and settings only, incl. instances created from a "
-      "subscripted alias); (b) all 17 packs; (c) the exploration of C01: every returned specification is dumped, reloaded and compared "
+      "subscripted alias); 72 ordered pairs of same-class strategies with own settings are loaded one after the other in one process; "
+      "(b) all packs of the option catalogue; (c) the exploration of C01: every returned specification is dumped, reloaded and compared "
       "(equality, rule per class, each rule form's own round trip, counts, objects, equations); bijections are round-tripped in C12.",
       "Trusted: as C01; json is a C boundary so all data crossing it is concrete - the solver's part is covering the decision space.",
       "CrossHair symbolic execution (pattern D: solver-enumerated settings, universes) + z3", "DESIGN.md 2/C18")
@@ -142,7 +144,8 @@ claim("C13",
 claim("C19",
       "Bounded symbolic execution: the DFA table is the solver variable (two-state tables, 512 four-state and 1152 five-state tables "
       "with finite sub-languages), groups = database that produced the original x pack with a pack-offering verification strategy "
-      "(nesting: the offered pack verifies deeper classes; mixed: the same strategy declines a pack for some classes). On every path "
+      "(nesting: the offered pack verifies deeper classes; mixed: the same strategy declines a pack for some classes; 128 five-state "
+      "tables where a merged copy of the start state puts an equivalence path next to the verified classes). On every path "
       "expand_verified() runs for real and the result is checked with the C01 and C02 oracles, for leftover pack-offering verified "
       "classes, for rule objects shared with the original, and the original is re-checked.",
       "Trusted: as C01.", "CrossHair symbolic execution (pattern D: solver-enumerated universes) + z3", "DESIGN.md 2/C19")
